@@ -7,14 +7,12 @@ Model: EdzedModel/Init.lean (`exec` = the synchronous call tree of `init_sblock`
 All statements hold for every configuration `c` (any number of blocks, any scripts, any on_output
 topology incl. cycles, any completion times, any recursion budget).
 
-Not proved here (validated on every run by the correspondence of the call logs and by the oracle):
-the place of `init_async` in a block's call sequence (at most once, after the restore, before
-`init_regular` unless an event forced the synchronous steps); the "sufficient" direction of the order
-independence.
 -/
 import EdzedModel.Init
 import EdzedProofs.Init
 import EdzedProofs.InitOrder
+import EdzedProofs.InitAsyncOrder
+import EdzedProofs.InitClosure
 
 namespace Edzed.Init
 
@@ -133,21 +131,46 @@ theorem legacy_wait_init_returns_after_failed_first_pass :
   ⟨{ n := 1, blk := fun _ => { initdef := some (Val.int 1, .direct) }, cblocks := [.raises], fuel := 8 },
    ⟨true, false, true⟩, by unfold View.of; decide, by decide, by decide, by decide⟩
 
-/-- Full statement: per block the calls are a subsequence of restore, init_async, init_regular, initdef
-    (init_async after init_regular only when an event forced the synchronous steps), each at most once.
-    Proved: the part about the three synchronous routines -- for every block the calls of `_restore_state`,
-    `init_regular`, `init_from_value(initdef)` form a sublist of [P, R, D]: each at most once, in this order,
-    whatever events arrive during the initialisation (the `init_steps_completed` protocol). -/
-theorem source_order_partial (c : Cfg) (b : Nat) :
+/-- Per block the calls of `_restore_state` (P), `init_async` (A), `init_regular` (R) and
+    `init_from_value(initdef)` (D) form a sublist of [P, A, R, D] -- each at most once, in the documented order.
+    The one exception, exactly as the code behaves: a block whose step 2 had already been begun when
+    `_init_sblocks_async` collected its tasks (`init_steps_completed` 2 or -2 after `_init_sblocks_sync_1`; only an
+    incoming event, which runs the pending synchronous steps first, does that) and which was still
+    uninitialised gets its `init_async` afterwards: its calls form a sublist of [P, R, D, A], and no synchronous
+    routine follows.  Holds for every topology and whatever events arrive during the initialisation. -/
+theorem source_order (c : Cfg) (b : Nat) :
+    (proj4 b (run c).log).Sublist [.P, .A, .R, .D] ∨
+    ((proj4 b (run c).log).Sublist [.P, .R, .D, .A] ∧
+      ((afterSync1 c).steps b = 2 ∨ (afterSync1 c).steps b = -2)) :=
+  run_order4 c b
+
+/-- every initialisation routine -- `init_async` included -- runs at most once per block -/
+theorem routine_at_most_once (c : Cfg) (b : Nat) (k : SK4) :
+    (proj4 b (run c).log).count k ≤ 1 := by
+  rcases source_order c b with h | ⟨h, _⟩
+  · have h1 := h.count_le k
+    have : List.count k [SK4.P, .A, .R, .D] ≤ 1 := by cases k <;> decide
+    omega
+  · have h1 := h.count_le k
+    have : List.count k [SK4.P, .R, .D, .A] ≤ 1 := by cases k <;> decide
+    omega
+
+/-- the synchronous routines alone: restore, init_regular, initdef in this order, each at most once -/
+theorem sync_source_order (c : Cfg) (b : Nat) :
     (proj b (run c).log).Sublist [.P, .R, .D] :=
   shape_sublist _ _ (run_J c b)
 
-/-- every synchronous routine runs at most once per block (init_async: see the note above) -/
-theorem routine_at_most_once_partial (c : Cfg) (b : Nat) (k : SK) :
-    (proj b (run c).log).count k ≤ 1 := by
-  have h := (source_order_partial c b).count_le k
-  have : List.count k [SK.P, .R, .D] ≤ 1 := by cases k <;> decide
-  omega
+/-- both orders occur: a plain block with all four sources, and a block that an event reached during
+    `_init_sblocks_sync_1` while its `init_regular` raises (swallowed by the sender's restore) -/
+example : ∃ c, proj4 0 (run c).log = [.P, .A, .R, .D] :=
+  ⟨{ n := 1, blk := fun _ => { persist := .raises, async := .fails 5, timeout := 10,
+                               initdef := some (Val.int 1, .direct) }, fuel := 16 }, by decide⟩
+
+example : ∃ c, proj4 1 (run c).log = [.R, .A] ∧ (afterSync1 c).steps 1 = -2 :=
+  ⟨{ n := 2, blk := fun i =>
+      if i = 0 then { persist := .restores (Val.int 1) .direct, dests := [1] }
+      else { regular := .raises, async := .returns (Val.int 9) 5, timeout := 10 },
+     fuel := 32 }, by decide, by decide⟩
 
 /-- the steps reached and the calls made go together: a block that completed both steps has called
     `init_regular` exactly once -/
@@ -206,6 +229,65 @@ theorem order_independent_success_partial (c : Cfg) (v : View) (hv : v.of (run c
     (h : waitInit v = .returned) : ∀ b, b < c.n → Reach c b := by
   intro b hb
   exact (run_inv c).out b ((wait_init_ok_implies_valid c v hv h).1 b hb)
+
+/-- Order independence, both directions, for circuits whose blocks have synchronous sources only (persistent
+    state, `init_regular`, initdef, a value set by the block's task right after `start()`; no `init_async`):
+    if the init-event topology is ACYCLIC (`rk` grows along every on_output edge), no routine raises and the
+    script values are defined (`Hyp`), then -- for EVERY creation order, since `c` is arbitrary and `Reach`
+    is defined by scripts and edges alone -- after `_init_sblocks_sync_2` no error has occurred and the
+    initialised blocks are EXACTLY the closure of the blocks with an own source under the edges.
+    (`NF`: the model's recursion budget was not exhausted; `hwf`: only the circuit's blocks have scripts.)
+    Not proved: the same with asynchronous routines (which of them complete in time is decided by
+    `_run_tasks`; with exact ties between a completion and another block's timeout the model itself is order
+    dependent) -- validated by the oracle over all creation orders. -/
+theorem initialised_iff_closure_sync_partial (c : Cfg) (rk : Nat → Nat) (hyp : Hyp c rk)
+    (hsync : ∀ b, (c.blk b).async = .none) (hwf : ∀ b, OwnSource (c.blk b) → b < c.n)
+    (hnf : NF (syncPhase c (afterAsync c))) :
+    (syncPhase c (afterAsync c)).ok = true ∧
+    ∀ b, ((syncPhase c (afterAsync c)).out b ≠ .undef ↔ Reach c b) :=
+  closure_sync c rk hyp hsync hwf hnf
+
+/-- ... hence start-up succeeds iff the closure covers all blocks and the first evaluation pass does not
+    fail: a condition in which the creation order does not occur -/
+theorem order_independent_success_sync_partial (c : Cfg) (rk : Nat → Nat) (hyp : Hyp c rk)
+    (hsync : ∀ b, (c.blk b).async = .none) (hwf : ∀ b, OwnSource (c.blk b) → b < c.n)
+    (hnf : NF (syncPhase c (afterAsync c))) :
+    (run c).failed = false ↔ ((∀ b, b < c.n → Reach c b) ∧ c.cblocks.any CScript.fails = false) := by
+  obtain ⟨fok, hiff⟩ := closure_sync c rk hyp hsync hwf hnf
+  constructor
+  · intro hnf'
+    have hok : (run c).ok = true := by
+      have := failed_iff_not_ok (run c); rw [hnf'] at this; simpa using this.symm
+    obtain ⟨hok1, _, _, _, hcb, _⟩ := firstPass_ok c (afterCheck c) hok
+    obtain ⟨_, hall, _⟩ := check_ok c (syncPhase c (afterAsync c)) hok1
+    refine ⟨fun b hb => (hiff b).mp ?_, hcb⟩
+    simp only [allInitialised, List.all_eq_true, List.mem_range] at hall
+    have := hall b hb
+    intro hu; rw [hu] at this; simp [Val.isUndef] at this
+  · intro ⟨hr, hcb⟩
+    have hall : allInitialised c (syncPhase c (afterAsync c)) = true := by
+      simp only [allInitialised, List.all_eq_true, List.mem_range]
+      intro b hb
+      have := (hiff b).mpr (hr b hb)
+      simpa using isUndef_of_ne this
+    have e1 : afterCheck c = syncPhase c (afterAsync c) := by
+      show check c (syncPhase c (afterAsync c)) = _
+      rw [check_of_ok c _ fok, if_pos hall]
+    have hok : (run c).ok = true := by
+      show (firstPass c (afterCheck c)).ok = true
+      rw [e1, firstPass_of_ok c _ fok, hcb]
+      exact fok
+    rw [failed_iff_not_ok, hok]; rfl
+
+/-- the hypotheses are satisfiable: a chain 0 → 1 → 2 whose first block has an initdef -/
+example : ∃ c rk, Hyp c rk ∧ (∀ b, (c.blk b).async = .none) ∧ (∀ b, OwnSource (c.blk b) → b < c.n) ∧
+    NF (syncPhase c (afterAsync c)) ∧ (run c).failed = false := by
+  refine ⟨{ n := 3, blk := fun i => if i = 0 then { initdef := some (Val.int 1, .direct), dests := [1] }
+      else if i = 1 then { dests := [2] } else {}, fuel := 64 }, id, ?_, ?_, ?_, by unfold NF; decide, by decide⟩
+  · constructor <;> intro b <;> by_cases h0 : b = 0 <;> by_cases h1 : b = 1 <;>
+      simp_all [Val.isUndef, Val.int]
+  · intro b; by_cases h0 : b = 0 <;> by_cases h1 : b = 1 <;> simp_all
+  · intro b; by_cases h0 : b = 0 <;> by_cases h1 : b = 1 <;> simp_all [OwnSource]
 
 /-- a block without any source of its own and without an incoming edge makes every start-up fail -/
 theorem unreachable_block_fails (c : Cfg) (b : Nat) (hb : b < c.n) (hn : ¬ Reach c b)
